@@ -210,3 +210,20 @@ func fileMethod(p *core.Program, name string) *core.Func {
 	}
 	return nil
 }
+
+// trackerMethod: a method of the import tracker type of pkg/namer (the struct with AddType, LocalNameOf and Imports) by its exported name.
+func trackerMethod(p *core.Program, name string) *core.Func {
+	for _, f := range p.Funcs() {
+		if f.Decl == nil || f.Decl.Recv == nil || f.Decl.Name.Name != name || core.RelPkg(f.Pkg.PkgPath) != "pkg/namer" {
+			continue
+		}
+		t := f.Info().TypeOf(f.Decl.Recv.List[0].Type)
+		if pt, ok := t.(*types.Pointer); ok {
+			t = pt.Elem()
+		}
+		if n, ok := t.(*types.Named); ok && ownerRole(p, n.Obj()) == "tracker" {
+			return f
+		}
+	}
+	return nil
+}
